@@ -268,7 +268,7 @@ func c16Concurrent(r *Run, cfg *Stream) {
 	if d.n(3) == 0 {
 		rule = &btapb.GcRule{Rule: &btapb.GcRule_MaxAge{MaxAge: &durationpb.Duration{Seconds: 10}}}
 		doomed = true
-		r.Probe("c16.rows_wholly_condemned", "c16.rule_relaxed_and_rows_written_during_pass", "c16.round_with_concurrent_schema_changes")
+		r.Probe("c16.rows_wholly_condemned")
 	}
 	fams := map[string]*btapb.GcRule{"f1": rule, "f2": nil}
 	now := int64(1_700_000_000_000_000)
